@@ -359,24 +359,55 @@ def install(E):
         return r if m is None else E.binop(_ast.Mod(), r, m)
 
     # ------------------------------------------------------------------ bytes-like constructors
+    def codec_name(encoding):
+        if not isinstance(encoding, str):
+            raise Unsupported("text encoding must be a string")
+        e = encoding.lower().replace("_", "-")
+        if e in CP1252_NAMES or e == "windows-1252":
+            return "cp1252"
+        if e in ("latin-1", "latin1", "iso-8859-1", "iso8859-1", "l1", "8859"):
+            return "latin-1"
+        if e in ("ascii", "us-ascii"):
+            return "ascii"
+        raise Unsupported(f"text encoding {encoding!r}")
+
+    E.codec_name = codec_name
+
     def encode_text(x, encoding, errors):
-        if not isinstance(encoding, str) or encoding.lower().replace("_", "-") not in CP1252_NAMES and encoding.lower() not in CP1252_NAMES:
-            raise Unsupported(f"text encoding {encoding!r}")
+        codec = codec_name(encoding)
         if errors not in ("replace", "strict"):
             raise Unsupported(f"codec error handler {errors!r}")
-        E.assumptions_used.add("cp1252-table")
         if isinstance(x, OpaqueStr):
             raise Unsupported("encoding an opaque string")
         cps = x.cps if isinstance(x, Str) else [ord(c) for c in x]
         out = []
+        if codec == "cp1252":
+            E.assumptions_used.add("cp1252-table")
+        limit = {"latin-1": 256, "ascii": 128}.get(codec)
         for c in cps:
-            if errors == "strict":
-                ok = cp1252.encodable(c)
-                if ok is False:
-                    E.throw("UnicodeEncodeError", "character maps to <undefined>")
-                if ok is not True:
-                    E.throw_if(mk_bool(z3.Not(ok)), "UnicodeEncodeError", "character maps to <undefined>")
-            out.append(cp1252.enc(c))
+            if codec == "cp1252":
+                if errors == "strict":
+                    ok = cp1252.encodable(c)
+                    if ok is False:
+                        E.throw("UnicodeEncodeError", "character maps to <undefined>")
+                    if ok is not True:
+                        E.throw_if(mk_bool(z3.Not(ok)), "UnicodeEncodeError", "character maps to <undefined>")
+                out.append(cp1252.enc(c))
+            else:
+                if isinstance(c, int):
+                    if c >= limit:
+                        if errors == "strict":
+                            E.throw("UnicodeEncodeError", "ordinal not in range")
+                        out.append(0x3F)
+                    else:
+                        out.append(c)
+                else:
+                    e = zi(c)
+                    if errors == "strict":
+                        E.throw_if(mk_bool(e >= limit), "UnicodeEncodeError", "ordinal not in range")
+                        out.append(mk_int(e, 8))
+                    else:
+                        out.append(mk_int(z3.If(e < limit, e, z3.IntVal(0x3F)), 8))
         return out
 
     def bytes_items(a, kw, what):
@@ -542,12 +573,26 @@ def install_methods(E):
         return r
 
     def m_decode(E_, o, encoding="utf-8", errors="strict"):
-        if not isinstance(encoding, str) or encoding.lower().replace("_", "-") not in CP1252_NAMES:
-            raise Unsupported(f"text encoding {encoding!r}")
+        codec = E_.codec_name(encoding)
         if errors not in ("replace", "strict"):
             raise Unsupported(f"codec error handler {errors!r}")
-        E_.assumptions_used.add("cp1252-table")
         out = []
+        if codec == "latin-1":
+            return Str(list(o.items))
+        if codec == "ascii":
+            for b in o.items:
+                hi = E_.compare_ge(b, 128)
+                if errors == "strict":
+                    E_.throw_if(hi, "UnicodeDecodeError", "ordinal not in range(128)")
+                    out.append(b)
+                elif hi is False:
+                    out.append(b)
+                elif hi is True:
+                    out.append(0xFFFD)
+                else:
+                    out.append(mk_int(z3.If(hi.e, z3.IntVal(0xFFFD), zi(b))))
+            return Str(out)
+        E_.assumptions_used.add("cp1252-table")
         for b in o.items:
             if errors == "strict":
                 bad = False
